@@ -108,7 +108,7 @@ func mergeKeys(inputChan <-chan keyBatchEvent, outputChan chan<- keyBatchEvent, 
 
 	states := make(map[string]stateMerge, settings.batchSize)
 	for batch := range inputChan {
-		var err error
+		err := batch.err // a failed key scan must reach the consumer
 		filtered := make([]string, 0, len(batch.keys))
 		for _, key := range batch.keys {
 			apc, erp := model.GetArchivePathComponents(key)
@@ -152,7 +152,7 @@ func versionedKeys(vstore storage.VersionedStore, inputChan <-chan keyBatchEvent
 	}()
 
 	for batch := range inputChan {
-		var err error
+		err := batch.err // a failed key scan must reach the consumer
 		expanded := make([]string, 0, len(batch.keys)*10)
 		for _, key := range batch.keys {
 			versions, erv := vstore.KeyVersions(context.Background(), key)
